@@ -16,7 +16,8 @@ RULE = ("exhaustive token sequences (every sequence of <= L symbols of a 45-symb
         "contexts; random token-level mutants of accepted programs (corpus, zoo and model-generated translation units); raw "
         "character noise; odd file names; single tokens / one-character runs of 4299..10000 (thorough: 100..300000) characters "
         "(digits, identifiers, hex, floats, quoted strings, blanks) in 30 positions incl. #line, linemarker flags, #pragma, array "
-        "bounds, bit-field widths, labels. A case is non-trivial when its text has >= 2 tokens; "
+        "bounds, bit-field widths, labels; every character-level prefix of the zoo / extras programs; the product of 9 specifier x 16 "
+        "declarator x 18 declaration-list x 8 body forms of function-definition-shaped inputs. A case is non-trivial when its text has >= 2 tokens; "
         "distinct = distinct input texts (exhaustive part distinct by construction, random part by hash).")
 ASSUMPTIONS = ["CPython 3.12 sys.monitoring PY_START events are deterministic for a given input",
                "nesting depth of generated inputs <= 25, so RecursionError is never legitimate here",
@@ -64,7 +65,21 @@ def plan(tier, seed):
     lens = [4299, 4300, 4301, 10000] if tier == "quick" else [100, 1000, 4299, 4300, 4301, 5000, 9999, 10000, 70000, 300000]
     for i in range(2):
         specs.append({"name": f"long-{i}", "mode": "long", "lens": lens, "shard": i, "nshards": 2})
+    for i in range(4):
+        specs.append({"name": f"prefix-{i}", "mode": "prefix", "shard": i, "nshards": 4, "maxlen": 500 if tier == "quick" else 4000})
+    specs.append({"name": "fdef", "mode": "fdef"})
     return specs
+
+
+# function-definition-shaped inputs: <specifiers> <declarator> <old-style declaration list> <body>, every slot also with
+# forms that do not fit the others (a declaration list after a non-function declarator, undeclared / extra / duplicate
+# K&R names, prototype declarators with a declaration list, ...)
+FDEF_SPECS = ["int", "", "static", "typedef int", "T", "struct s", "void", "_Noreturn void", "int *"]
+FDEF_DTORS = ["x", "v[3]", "f()", "f(a)", "f(a, b)", "f(int a, ...)", "(*f)(a)", "f(a)(b)", "*f(a, b)", "f(void)", "f(a, a)", "(f)(a)",
+              "f(a, ...)", "f(T)", "x : 3", "(*f(a))(int)"]
+FDEF_LISTS = ["", "int a;", "int y;", "int a, b;", "int b; char a;", "int a = 1;", "int;", "struct s { int z; } a;", "typedef int a;", "a;",
+              "int a; int a;", "register a;", "int a[]; int (*b)();", "T a;", "int a,;", "int a int b;", "int (a);", "int a; ;"]
+FDEF_BODIES = ["{ }", "{ return a; }", ";", "", "{", "{ } }", "= 1;", "{ int a; }"]
 
 
 # very long single tokens (and runs of one character) in every place where the lexer or parser converts, compares or
@@ -208,6 +223,40 @@ def run_shard(spec):
                         record(o, v, text, "long.c", 0)
                         res["nontrivial_distinct"] += 1
             res["samples"].append({"long_context": LONG_CONTEXTS[0], "run": "1" * 12 + "...", "lengths": spec["lens"]})
+        elif spec["mode"] == "prefix":
+            # every character-level prefix of the small accepted programs (input that ends anywhere: inside a token, right
+            # after a backslash, inside a directive line ...)
+            from ..gen import extras
+            texts = [t for _, t in corpus.zoo() + extras.TEXTS if len(t) <= spec["maxlen"]]
+            texts += ["#pragma omp parallel \\\n for\n", "int x;\n#pragma pack(1) \\", "# 1 \"f.c\" 1 \\\n", "#line 7 \"a\\\"b\"\nint y;",
+                      "char *s = \"a\\\nb\"; int c = '\\\\';", "int a = 1 ? 2 : 3; /* c */", "_Pragma(\"omp \\\"x\\\"\") int z;"]
+            k = 0
+            for t in texts:
+                k += 1
+                if k % spec["nshards"] != spec["shard"]:
+                    continue
+                for cut in range(len(t) + 1):
+                    text = t[:cut]
+                    o, v = judge(text, "p.c", steps, ntok=max(8, cut))
+                    record(o, v, text, "p.c", 0)
+                    if cut >= 2:
+                        hashes.add(_h(text))
+            res["samples"].append({"prefix_of": texts[0][:80], "programs": len(texts)})
+        elif spec["mode"] == "fdef":
+            parser = S.CParser()
+            for sp in FDEF_SPECS:
+                for dt in FDEF_DTORS:
+                    for dl in FDEF_LISTS:
+                        for bd in FDEF_BODIES:
+                            text = "typedef int T; " + " ".join(x for x in (sp, dt, dl, bd) if x) + " int after;"
+                            o, v = judge(text, "fd.c", steps, ntok=40, parser=parser)
+                            record(o, v, text, "fd.c", 0)
+                            res["nontrivial_distinct"] += 1
+                            text2 = " ".join(x for x in (sp, dt, dl, bd) if x)
+                            o, v = judge(text2, "fd.c", steps, ntok=40, parser=parser)
+                            record(o, v, text2, "fd.c", 0)
+                            res["nontrivial_distinct"] += 1
+            res["samples"].append({"fdef_shape": "int f(a) int a; { return a; }", "slots": [len(FDEF_SPECS), len(FDEF_DTORS), len(FDEF_LISTS), len(FDEF_BODIES)]})
         elif spec["mode"] == "noise":
             rnd = random.Random(spec["rseed"])
             for i in range(spec["n"]):
